@@ -1,6 +1,7 @@
 import SSModel.Format
 import SSLemmas.Format
 import SSLemmas.FormatCtx
+import SSLemmas.ErrLines
 /-!
 C18 — tree formatting is well-formed; reading it back recovers the Stack's structure.
 Property theorems only.  Model `SSModel/Format.lean` over the marker table generated from `_types.py`.
@@ -414,3 +415,36 @@ example : format ⟨false, true, false⟩ exStack =
    "╚ <leaf>\n",
    "  Error while extracting stack:\n",
    "  ValueError: boom\n"] := by decide
+
+/-! #### the error block: how one traceback element becomes elements of `format()` (F21) -/
+
+/-- **C18_error_lines_single**: whatever characters the exception message contains, every element
+`_format_error` yields for a traceback element is `"  " ++ payload ++ "\n"` with a payload free of `"\n"`:
+one newline-terminated line. -/
+theorem C18_error_lines_single (line : List Char) :
+    ∀ s ∈ SS.ErrLines.sublines line, ∃ p : List Char, s = ' ' :: ' ' :: (p ++ ['\n']) ∧ '\n' ∉ p := by
+  intro s hs
+  simp only [SS.ErrLines.sublines, List.mem_map] at hs
+  obtain ⟨p, hp, rfl⟩ := hs
+  exact ⟨p, rfl, SS.ErrLines.splitOn_no_sep '\n' _ p hp⟩
+
+/-- **C18_error_lines_count**: as many elements as the text has `"\n"`-separated lines (so the number of
+elements of `format()` is the number of lines of `str(stack)`). -/
+theorem C18_error_lines_count (line : List Char) :
+    (SS.ErrLines.sublines line).length = (SS.ErrLines.dropTrailingNL line).count '\n' + 1 := by
+  simp [SS.ErrLines.sublines, SS.ErrLines.splitOn_length]
+
+/-- **C18_error_lines_lossless**: the payloads, joined by newlines, are the traceback element (less its final newline):
+nothing of the message is dropped or reordered. -/
+theorem C18_error_lines_lossless (line : List Char) :
+    ['\n'].intercalate ((SS.ErrLines.sublines line).map (fun s => (s.drop 2).dropLast)) = SS.ErrLines.dropTrailingNL line := by
+  have : (SS.ErrLines.sublines line).map (fun s => (s.drop 2).dropLast) = SS.ErrLines.splitOn '\n' (SS.ErrLines.dropTrailingNL line) := by
+    simp [SS.ErrLines.sublines, List.map_map, Function.comp_def]
+  rw [this, SS.ErrLines.splitOn_join]
+
+/-- The code before F21 (`str.splitlines(True)`): a message with a carriage return gives an element that does not
+end in a newline. -/
+theorem C18_F21_old_code_witness :
+    ∃ s ∈ SS.ErrLines.sublinesOld ['E', ':', ' ', 'a', '\r', 'b', '\n'], s.getLast? ≠ some '\n' := by decide
+
+example : SS.ErrLines.sublines ['E', ':', ' ', 'a', '\r', 'b', '\n'] = [[' ', ' ', 'E', ':', ' ', 'a', '\r', 'b', '\n']] := by decide
